@@ -441,7 +441,10 @@ theorem skeleton_opfunction_ok : skeletonOf "opfunction" = Skeleton.opfunction :
 theorem skeleton_can_be_imm_ok : skeletonOf "can_be_imm" = Skeleton.can_be_imm := by decide +kernel
 theorem skeleton_can_slot_be_imm_ok : skeletonOf "can_slot_be_imm" = Skeleton.can_slot_be_imm := by decide +kernel
 theorem skeleton_reduce_target_ok : skeletonOf "reduce_target" = Skeleton.reduce_target := by decide +kernel
-theorem skeleton_opreduce_ok : skeletonOf "opreduce" = Skeleton.opreduce := by decide +kernel
+/-- two validated bodies: the pinned one, and the one with patches/fix-C15-opreduce-late-operand-read.diff (operands from the third on that are
+    variables are first copied into fresh slots; the chain emitted afterwards is unchanged) -/
+theorem skeleton_opreduce_ok : skeletonOf "opreduce" = Skeleton.opreduce ∨ skeletonOf "opreduce" = Skeleton.opreduce_snapshot := by
+  decide +kernel
 theorem skeleton_compreduce_ok : skeletonOf "compreduce" = Skeleton.compreduce := by decide +kernel
 theorem skeleton_janetc_funopt_ok : skeletonOf "janetc_funopt" = Skeleton.janetc_funopt := by decide +kernel
 theorem skeleton_do_apply_ok : skeletonOf "do_apply" = Skeleton.do_apply := by decide +kernel
